@@ -52,6 +52,7 @@ type c30Scenario struct {
 	Pre     []string   `json:"pre"`
 	Threads [][]string `json:"threads"`
 	OnPoll  string     `json:"on_poll"`
+	History []string   `json:"history,omitempty"` // set: a replay artefact of the restart part (restart_test.go)
 	Choices []int      `json:"choices,omitempty"`
 }
 
@@ -371,8 +372,8 @@ func c30Scenarios(r *vmc.Result) []c30Scenario {
 
 func TestVerif_C30(t *testing.T) {
 	r := vmc.New("C30", "model_checking")
-	r.Rule = "per scenario (sequential prefix x 1-3 threads of Sleep/Wake calls x OnPoll behaviour {plain, reads state, re-enters Wake}) all interleavings of the threads, the poll timer and the in-poll duration timer over the real rewritten sleep.Manager (statement granularity inside Poll) up to the deviation bound (preemptions + early timer firings), final Wake by main; non-trivial = executions in which a Wake returned while a Poll was in progress (distinct by event log); outcomes = distinct event logs"
-	r.Assume("scheduling points at every mutex/atomic/select/channel/timer/spawn operation of internal/sleep/sleep.go and before every statement of Manager.Poll; callbacks are harness recorders (the agent's enterSleep/exitSleep/doPoll are not run); the state file is real (scratch directory); PollIntervalJitter 0")
+	r.Rule = "per scenario (sequential prefix x 1-3 threads of Sleep/Wake calls x OnPoll behaviour {plain, reads state, re-enters Wake}) all interleavings of the threads, the poll timer and the in-poll duration timer over the real rewritten sleep.Manager (statement granularity inside Poll) up to the deviation bound (preemptions + early timer firings), final Wake by main; non-trivial = executions in which a Wake returned while a Poll was in progress (distinct by event log); outcomes = distinct event logs. Restart part: every sequential history over {sleep, wake, poll = one poll window of virtual time, restart = Stop + new Manager + Start, reload = Stop + new Manager + LoadState} up to the length bound on one state file, then Stop and one more resume; non-trivial = histories in which the state changed in a lifetime that began by resuming SLEEPING"
+	r.Assume("scheduling points at every mutex/atomic/select/channel/timer/spawn operation of internal/sleep/sleep.go and before every statement of Manager.Poll; callbacks are harness recorders (the agent's enterSleep/exitSleep/doPoll are not run); the state file is real (scratch directory); PollIntervalJitter 0; restart part: a process restart is Stop() followed by a new Manager on the same directory (no crash in the middle of an operation), histories are sequential")
 	// the state file is written thousands of times per second: prefer a memory-backed scratch directory
 	base := ""
 	if fi, err := os.Stat("/dev/shm"); err == nil && fi.IsDir() {
@@ -389,8 +390,13 @@ func TestVerif_C30(t *testing.T) {
 	c30Dir = dir
 	var rp c30Scenario
 	if r.ReplayInto(&rp) {
-		w, out := c30Run(rp, vmc.NewReplayChooser(rp.Choices))
-		c30Check(r, rp, w, out, rp.Choices)
+		if len(rp.History) > 0 {
+			w, out := c30rRun(rp.History, vmc.NewReplayChooser(rp.Choices))
+			c30rCheck(r, w, out, rp.Choices)
+		} else {
+			w, out := c30Run(rp, vmc.NewReplayChooser(rp.Choices))
+			c30Check(r, rp, w, out, rp.Choices)
+		}
 		r.Add("states", 1)
 		r.Add("transitions", 1)
 		if err := r.Finish(); err != nil {
@@ -410,6 +416,8 @@ func TestVerif_C30(t *testing.T) {
 		return 2
 	}
 	r.Info["deviation_bound"] = map[string]int{"small_shapes": boundFor(c30Scenario{}), "other_shapes": 2}
+	// restart part first (seconds): sequential histories over {sleep, wake, poll, restart, reload}
+	c30RestartPart(r)
 	completed := 0
 	// every shard runs every scenario; vmc.Explore deals the second-level subtrees of each DFS
 	// over the shards (balanced, and the counts stay exact)
